@@ -5,10 +5,54 @@ package dispatcher
 // Contracts for govc (see /verif/DESIGN.md). Comments only; compiled only with -tags verif.
 
 //@ spec
+//@ ghost var lastErr error
+//@ ghost var lastCode int
+//@ ghost var delivers int
+//@ ghost var attemptsRecorded int
+//@ ghost var lastOutcome queue.AttemptOutcome
+//@ ghost var lastDeadReason string
+//@ ghost var lastAttemptNo int
+//@ ghost var lastAttemptEvent string
 //@ pred retryableSpec(err error, code int, denied bool) := (err != nil && !denied) || (err == nil && (code == 408 || code == 429 || code >= 500))
+//@ pred ackSpec(err error, code int) := err == nil && code >= 200 && code < 300
+//@ pred inStatusRange(err error, code int) := err != nil || (code >= 100 && code <= 599)
+//@ func nominalDelay(attempt int, base time.Duration, cap time.Duration) real := min(real(base) * pow(2.0, real(attempt - 1)), real(cap))
+//@ pred retryConfigOK(r RetryConfig) := r.Base > 0 && r.Base <= r.Cap && !nan(r.Jitter) && r.Jitter >= 0 && r.Jitter <= 1
+
+//@ iface dispatcher.Deliverer.Deliver(self, ctx, delivery) (res)
+//@   modifies lastErr, lastCode, delivers
+//@   ensures lastErr == res.Err && lastCode == res.StatusCode && delivers == old(delivers) + 1
+
+//@ fieldfunc dispatcher.PushDispatcher.ObserveAttempt(outcome)
+//@ fieldfunc dispatcher.PushDispatcher.ObserveDead(reason)
 
 //@ func isSuccess
-//@   ensures [iff_2xx] result <==> (res.Err == nil && res.StatusCode >= 200 && res.StatusCode < 300)
+//@   ensures [iff_2xx] result <==> ackSpec(res.Err, res.StatusCode)
 
 //@ func shouldRetry
 //@   ensures [iff_spec] result <==> retryableSpec(res.Err, res.StatusCode, errIs(res.Err, ErrPolicyDenied))
+
+//@ func (*PushDispatcher).recordAttempt
+//@   requires d != nil
+//@   modifies attemptsRecorded, lastOutcome, lastDeadReason, lastAttemptNo, lastAttemptEvent
+//@   ensures [one_record] attemptsRecorded == old(attemptsRecorded) + 1
+//@   ensures [record_content] lastOutcome == attempt.Outcome && lastDeadReason == attempt.DeadReason && lastAttemptNo == attempt.Attempt && lastAttemptEvent == attempt.EventID
+
+//@ func retryDelay
+//@   ensures [zero_base] retry.Base <= 0 ==> result == 0
+//@   ensures [nonneg] retryConfigOK(retry) ==> result >= 0
+//@   ensures [lower_bound] attempt >= 1 && retryConfigOK(retry) ==> real(result) > nominalDelay(attempt, retry.Base, retry.Cap) * (1 - real(retry.Jitter)) - 1
+//@   ensures [upper_bound] attempt >= 1 && retryConfigOK(retry) ==> real(result) <= nominalDelay(attempt, retry.Base, retry.Cap) * (1 + real(retry.Jitter))
+
+//@ func (*PushDispatcher).classifyDelivery
+//@   requires d != nil
+//@   modifies lastErr, lastCode, delivers, attemptsRecorded, lastOutcome, lastDeadReason, lastAttemptNo, lastAttemptEvent
+//@   ensures [one_send] delivers == old(delivers) + 1
+//@   ensures [ack_iff] inStatusRange(lastErr, lastCode) ==> (result.kind == leaseActionAck <==> ackSpec(lastErr, lastCode))
+//@   ensures [nack_iff] inStatusRange(lastErr, lastCode) ==> (result.kind == leaseActionNack <==> (!ackSpec(lastErr, lastCode) && retryableSpec(lastErr, lastCode, errIs(lastErr, ErrPolicyDenied)) && env.Attempt <= target.Retry.Max))
+//@   ensures [total] result.kind == leaseActionAck || result.kind == leaseActionNack || result.kind == leaseActionMarkDead
+//@   ensures [dead_reason] inStatusRange(lastErr, lastCode) && result.kind == leaseActionMarkDead ==> result.reason == ite(errIs(lastErr, ErrPolicyDenied), "policy_denied", ite(retryableSpec(lastErr, lastCode, false), "max_retries", "no_retry"))
+//@   ensures [policy_denied_never_retried] errIs(lastErr, ErrPolicyDenied) ==> result.kind == leaseActionMarkDead && result.reason == "policy_denied"
+//@   ensures [one_attempt_recorded] attemptsRecorded == old(attemptsRecorded) + 1 && lastAttemptNo == env.Attempt && lastAttemptEvent == env.ID
+//@   ensures [outcome_matches] (result.kind == leaseActionAck ==> lastOutcome == queue.AttemptOutcomeAcked) && (result.kind == leaseActionNack ==> lastOutcome == queue.AttemptOutcomeRetry) && (result.kind == leaseActionMarkDead ==> lastOutcome == queue.AttemptOutcomeDead && lastDeadReason == result.reason)
+//@   ensures [lease_identity] result.leaseID == env.LeaseID && result.route == env.Route
